@@ -745,3 +745,246 @@ Section WithInput.
     apply read_punctuation_post; exact NE.
   Qed.
 End WithInput.
+
+(* ---------------------------------------------------------------------------------------------- *)
+(* the loop of Tokenize *)
+
+Definition eof_at (i : N) : token := mktok TT_EOF [] 0 i i.
+Definition non_eof (t : token) : Prop := ttype t <> TT_EOF.
+
+(* spans of consecutive tokens: start < end <= next start; the end marker sits at (lo <=) i *)
+Fixpoint spans_from (lo : N) (ts : list token) : Prop :=
+  match ts with
+  | [] => True
+  | t :: tl => lo <= tstart t /\ tstart t < tend t /\ spans_from (tend t) tl
+  end.
+
+Lemma spans_from_app lo ts t :
+  spans_from lo ts -> (forall hi, (ts = [] -> hi = lo) -> (forall x l, ts = l ++ [x] -> hi = tend x) -> hi <= tstart t) ->
+  tstart t < tend t -> spans_from lo (ts ++ [t]).
+Proof.
+  revert lo. induction ts as [|a ts IH]; intros lo H1 H2 H3; cbn.
+  - split; [| split; [exact H3 | exact I]]. apply H2; [reflexivity | intros x l E; destruct l; discriminate].
+  - destruct H1 as (A & B & C). split; [exact A | split; [exact B |]].
+    apply IH; [exact C | | exact H3].
+    intros hi Hn Hl. apply H2.
+    + discriminate.
+    + intros x l E. destruct l as [|y l].
+      * cbn in E. injection E as -> ->. apply Hn. reflexivity.
+      * cbn in E. injection E as -> E. eapply Hl. exact E.
+Qed.
+
+Definition last_end (lo : N) (ts : list token) : N := match rev ts with [] => lo | t :: _ => tend t end.
+
+Lemma last_end_app lo ts t : last_end lo (ts ++ [t]) = tend t.
+Proof. unfold last_end. rewrite rev_app_distr. reflexivity. Qed.
+
+Lemma spans_from_snoc lo ts t :
+  spans_from lo ts -> last_end lo ts <= tstart t -> tstart t < tend t -> spans_from lo (ts ++ [t]).
+Proof.
+  intros H1 H2 H3. apply spans_from_app; auto.
+  intros hi Hn Hl. destruct ts as [|a ts'] using rev_ind.
+  - rewrite (Hn eq_refl). exact H2.
+  - rewrite (Hl _ _ eq_refl). rewrite last_end_app in H2. exact H2.
+Qed.
+
+Lemma lex_loop_post bs max_tok fuel : forall c n toks cms,
+  (length (fst c) < fuel)%nat -> Forall non_eof toks ->
+  spans_from 0 toks -> last_end 0 toks <= snd c -> n = N.of_nat (length toks) -> n <= max_tok ->
+  post (fun r => exists ts i, fst r = ts ++ [eof_at i] /\ Forall non_eof ts /\ spans_from 0 ts /\ last_end 0 ts <= i /\
+                              N.of_nat (length ts) <= max_tok)
+       (lex_loop bs max_tok fuel c n toks cms).
+Proof.
+  induction fuel as [|f IH]; intros c n toks cms Hf NEOF SP LE HN HM; [lia |].
+  cbn [lex_loop]. destruct (fst c) as [|b tl] eqn:E.
+  - cbn. exists toks, (snd c). repeat split; auto. lia.
+  - eapply post_bind; [apply skip_trivia_step0; rewrite E; cbn [length]; lia |].
+    intros [c1 cms1] S1. cbn [fst] in S1.
+    pose proof (step0_len _ _ S1) as L1. pose proof (step0_idx _ _ S1) as I1.
+    destruct (fst c1) as [|b1 t1] eqn:E1.
+    + cbn. exists toks, (snd c1). repeat split; auto; lia.
+    + destruct (max_tok <=? n) eqn:LIM; [apply err_at_post |]. apply N.leb_gt in LIM.
+      eapply post_bind; [apply next_token_post; rewrite E1; discriminate |].
+      intros [[[ty v] q] c2] [TY S2]. cbn [fst snd] in TY, S2.
+      pose proof (step1_len _ _ S2) as L2. pose proof (step1_idx _ _ S2) as I2.
+      apply IH.
+      * try rewrite E1 in L1; try rewrite E1 in L2; try rewrite E in L1; try rewrite E in Hf. cbn [length] in *. lia.
+      * apply Forall_app. split; [exact NEOF | constructor; [exact TY | constructor]].
+      * apply spans_from_snoc; cbn [tstart tend]; [exact SP | lia | lia].
+      * rewrite last_end_app. cbn [tend]. lia.
+      * rewrite app_length. cbn [length]. lia.
+      * lia.
+Qed.
+
+(* ---------------------------------------------------------------------------------------------- *)
+(* theorems about Tokenize *)
+
+Theorem tokenize_with_total max_in max_tok bs :
+  tokenize_with max_in max_tok bs <> Panic /\ tokenize_with max_in max_tok bs <> OutOfFuel.
+Proof.
+  unfold tokenize_with. destruct (max_in <? N.of_nat (length bs)); [split; discriminate |].
+  eapply post_not_panic. apply lex_loop_post; cbn; auto; lia.
+Qed.
+
+Theorem tokenize_total bs : tokenize bs <> Panic /\ tokenize bs <> OutOfFuel.
+Proof. apply tokenize_with_total. Qed.
+
+(* a successful run: tokens, then exactly one end marker; no other token has the end-marker type; token spans are
+   non-empty, ordered and disjoint; at most max_tok tokens *)
+Theorem tokenize_shape max_in max_tok bs toks cms :
+  tokenize_with max_in max_tok bs = Val (toks, cms) ->
+  exists ts i, toks = ts ++ [eof_at i] /\ Forall non_eof ts /\ spans_from 0 ts /\ last_end 0 ts <= i /\
+               N.of_nat (length ts) <= max_tok.
+Proof.
+  unfold tokenize_with. destruct (max_in <? N.of_nat (length bs)); [discriminate |].
+  intros H.
+  pose proof (lex_loop_post bs max_tok (S (length bs)) (bs, 0) 0 [] [] ltac:(cbn; lia) ltac:(constructor) I
+                ltac:(cbn; lia) eq_refl ltac:(lia)) as P.
+  rewrite H in P. exact P.
+Qed.
+
+Theorem exactly_one_eof bs toks cms :
+  tokenize bs = Val (toks, cms) ->
+  exists ts i, toks = ts ++ [eof_at i] /\ Forall (fun t => ttype t <> TT_EOF) ts.
+Proof.
+  intros H. destruct (tokenize_shape _ _ _ _ _ H) as (ts & i & A & B & _). exists ts, i. split; assumption.
+Qed.
+
+(* size limit: above the limit the input is rejected with E1006 at 1:0; at or below it the limit plays no role *)
+Theorem size_limit_reject max_in max_tok bs :
+  max_in < N.of_nat (length bs) -> tokenize_with max_in max_tok bs = Err E_InputTooLarge 1 0.
+Proof. intros H. unfold tokenize_with. apply N.ltb_lt in H. rewrite H. reflexivity. Qed.
+
+Theorem size_limit_exact m1 m2 max_tok bs :
+  N.of_nat (length bs) <= m1 -> N.of_nat (length bs) <= m2 ->
+  tokenize_with m1 max_tok bs = tokenize_with m2 max_tok bs.
+Proof.
+  intros H1 H2. unfold tokenize_with.
+  replace (m1 <? N.of_nat (length bs)) with false by (symmetry; apply N.ltb_ge; exact H1).
+  replace (m2 <? N.of_nat (length bs)) with false by (symmetry; apply N.ltb_ge; exact H2).
+  reflexivity.
+Qed.
+
+(* token limit: a successful run has at most max_tok tokens before the end marker *)
+Theorem token_limit_bound max_in max_tok bs toks cms :
+  tokenize_with max_in max_tok bs = Val (toks, cms) -> N.of_nat (length toks) <= max_tok + 1.
+Proof.
+  intros H. destruct (tokenize_shape _ _ _ _ _ H) as (ts & i & -> & _ & _ & _ & B).
+  rewrite app_length. cbn [length]. lia.
+Qed.
+
+(* ---------------------------------------------------------------------------------------------- *)
+(* comments: captured in source order, each with exactly the bytes of the text it spans *)
+
+Definition slice (bs : list N) (a b : N) : list N := firstn (N.to_nat (b - a)) (skipn (N.to_nat a) bs).
+
+Definition inv (bs : list N) (c : list N * N) : Prop := fst c = skipn (N.to_nat (snd c)) bs.
+
+Lemma skipn_plus {A} a b (l : list A) : skipn (a + b) l = skipn b (skipn a l).
+Proof.
+  revert l. induction a as [|a IH]; intros l; [reflexivity |].
+  destruct l; cbn [Nat.add skipn]; [rewrite skipn_nil; reflexivity | apply IH].
+Qed.
+
+Lemma inv_stepw bs w c c' : inv bs c -> stepw w c c' -> inv bs c' /\ w = slice bs (snd c) (snd c').
+Proof.
+  unfold inv, slice. intros I [S1 S2]. rewrite S2. split.
+  - rewrite N2Nat.inj_add, Nat2N.id, skipn_plus, <- I, S1.
+    rewrite skipn_app, skipn_all, Nat.sub_diag. reflexivity.
+  - replace (snd c + N.of_nat (length w) - snd c) with (N.of_nat (length w)) by lia.
+    rewrite Nat2N.id, <- I, S1, firstn_app, firstn_all, Nat.sub_diag, firstn_O, app_nil_r. reflexivity.
+Qed.
+
+Lemma inv_step0 bs c c' : inv bs c -> step0 c c' -> inv bs c'.
+Proof. intros I (w & S). eapply inv_stepw; eauto. Qed.
+
+(* cm is a well-formed capture: its text is the slice of the input it spans, it is not empty and starts with the
+   comment opener of its style *)
+Definition com_good (bs : list N) (cm : comment) : Prop :=
+  ctext cm = slice bs (cstart cm) (cend cm) /\ cstart cm < cend cm /\
+  cinline cm = code_before bs (cstart cm) /\
+  exists w, ctext cm = (if cstyle cm =? 0 then [45; 45] else [47; 42]) ++ w.
+
+Fixpoint coms_from (bs : list N) (lo : N) (cms : list comment) : Prop :=
+  match cms with
+  | [] => True
+  | cm :: tl => lo <= cstart cm /\ com_good bs cm /\ coms_from bs (cend cm) tl
+  end.
+
+Definition last_cend (lo : N) (cms : list comment) : N := match rev cms with [] => lo | c :: _ => cend c end.
+
+Lemma last_cend_cons lo x a : last_cend lo (x :: a) = last_cend (cend x) a.
+Proof. unfold last_cend. cbn [rev]. destruct (rev a); reflexivity. Qed.
+
+Lemma coms_from_app bs lo a b : coms_from bs lo a -> coms_from bs (last_cend lo a) b -> coms_from bs lo (a ++ b).
+Proof.
+  revert lo. induction a as [|x a IH]; intros lo H1 H2; cbn; [exact H2 |].
+  destruct H1 as (A & B & C). split; [exact A | split; [exact B |]]. apply IH; [exact C |].
+  rewrite last_cend_cons in H2. exact H2.
+Qed.
+
+Lemma last_cend_app lo a b : last_cend lo (a ++ b) = last_cend (last_cend lo a) b.
+Proof.
+  unfold last_cend. rewrite rev_app_distr. destruct (rev b); cbn; [reflexivity | reflexivity].
+Qed.
+
+Lemma com_chain_good bs c cms c' :
+  inv bs c -> com_chain bs c cms c' -> inv bs c' /\ coms_from bs (snd c) cms /\ last_cend (snd c) cms <= snd c'.
+Proof.
+  intros I H. induction H as [c | c cm c1 cms c2 OK CH IH].
+  - repeat split; auto. cbn. lia.
+  - pose proof (skip_ws_step (fst c) (snd c)) as W. replace (fst c, snd c) with c in W by (destruct c; reflexivity).
+    pose proof (inv_step0 _ _ _ I W) as I1. pose proof (step0_idx _ _ W) as X1.
+    destruct OK as (S & A & B & INL & PX).
+    destruct (inv_stepw _ _ _ _ I1 S) as [I2 SL].
+    destruct (IH I2) as (I3 & G & LE).
+    assert (LT : cstart cm < cend cm).
+    { destruct S as [_ S2]. rewrite A, B, S2. destruct PX as [w E]. rewrite E.
+      destruct (cstyle cm =? 0); cbn [app length]; lia. }
+    split; [exact I3 |]. split.
+    + cbn [coms_from]. split; [lia |]. split.
+      * unfold com_good. split; [rewrite A, B; exact SL |]. split; [exact LT |]. split; [rewrite A; exact INL | exact PX].
+      * rewrite B. exact G.
+    + rewrite last_cend_cons, B. exact LE.
+Qed.
+
+Lemma lex_loop_comments bs max_tok fuel : forall c n toks cms,
+  (length (fst c) < fuel)%nat -> inv bs c -> coms_from bs 0 cms -> last_cend 0 cms <= snd c ->
+  post (fun r => coms_from bs 0 (snd r)) (lex_loop bs max_tok fuel c n toks cms).
+Proof.
+  induction fuel as [|f IH]; intros c n toks cms Hf I G LE; [lia |].
+  cbn [lex_loop]. destruct (fst c) as [|b tl] eqn:E; [exact G |].
+  eapply post_bind; [apply skip_trivia_post; rewrite E; cbn [length]; lia |].
+  intros [c1 cms1] (new & c0 & A & CH & F). cbn [fst snd] in A, F.
+  destruct (com_chain_good _ _ _ _ I CH) as (I0 & G0 & LE0).
+  assert (G1 : coms_from bs 0 cms1).
+  { subst cms1. apply coms_from_app; [exact G |].
+    clear - G0 LE. revert G0. generalize (snd c) LE. intros lo LE0'.
+    destruct new as [|x new]; cbn [coms_from]; [auto |]. intros (A & B & C). split; [lia | split; assumption]. }
+  assert (S01 : step0 c0 c1) by (subst c1; destruct c0; apply skip_ws_step).
+  pose proof (inv_step0 _ _ _ I0 S01) as I1.
+  assert (LE1 : last_cend 0 cms1 <= snd c1).
+  { subst cms1. rewrite last_cend_app. pose proof (step0_idx _ _ S01).
+    unfold last_cend in *. destruct (rev new); [| lia].
+    pose proof (com_chain_step0 _ _ _ _ CH) as SS. apply step0_idx in SS. lia. }
+  pose proof (com_chain_step0 _ _ _ _ CH) as S00.
+  pose proof (step0_len _ _ S00) as L0. pose proof (step0_len _ _ S01) as L1.
+  destruct (fst c1) as [|b1 t1] eqn:E1; [exact G1 |].
+  destruct (max_tok <=? n); [apply err_at_post |].
+  eapply post_bind; [apply next_token_post; rewrite E1; discriminate |].
+  intros [[[ty v] q] c2] [_ S2]. cbn [fst snd] in S2.
+  pose proof (step1_len _ _ S2) as L2. pose proof (step1_idx _ _ S2) as X2.
+  apply IH; auto.
+  - try rewrite E1 in L1; try rewrite E1 in L2; try rewrite E in L0; try rewrite E in Hf. cbn [length] in *. lia.
+  - eapply inv_step0; [exact I1 | apply step1_step0; exact S2].
+  - lia.
+Qed.
+
+Theorem comments_captured bs toks cms :
+  tokenize bs = Val (toks, cms) -> coms_from bs 0 cms.
+Proof.
+  unfold tokenize, tokenize_with. destruct (max_input <? N.of_nat (length bs)); [discriminate |].
+  intros H.
+  pose proof (lex_loop_comments bs max_tokens (S (length bs)) (bs, 0) 0 [] [] ltac:(cbn; lia) eq_refl I ltac:(cbn; lia)) as P.
+  rewrite H in P. exact P.
+Qed.
